@@ -66,6 +66,7 @@ THEOREMS = [
     "KrroodVerif.Eql.IR.loopSt_spec",
     "KrroodVerif.Eql.IR.runNode_and",
     "KrroodVerif.Eql.IR.C01_runIR_eq_eval_and_partial",
+    "KrroodVerif.Eql.IR.C01_runIR_eq_eval_closed_partial",
 ]
 # second tie (translator): the table of construction-time rewrites regenerated from the current source equals the one
 # `build` transcribes and is admissible — the same two obligations as C02 (harness/translate/c02_translate.py)
